@@ -174,9 +174,9 @@ def signatures(fnode):
 def normalise(qname, fnode, table):
     """Rename the locals of fnode (in place) to their reference names.
     Returns {current name: reference name} for what was renamed."""
-    ref = table.get(qname)
-    if not ref:
+    if qname not in table:
         return {}
+    ref = table[qname]
     cur = signatures(fnode)
     by_sig = {}
     for nm, sg in cur.items():
@@ -198,4 +198,52 @@ def normalise(qname, fnode, table):
         for x in ast.walk(fnode):
             if isinstance(x, ast.Name) and x.id in ren:
                 x.id = ren[x.id]
+    _inline_new_test_values(fnode, set(ref))
     return ren
+
+
+def _inline_new_test_values(fnode, ref_names):
+    """`v = <expr>` immediately followed by `if ... v ...:` where v is a
+    local the reference does not know, bound once and read once (in that
+    test): the value was only given a name to be tested.  The assignment is
+    folded back into the test, so a rule sees the test the reference has."""
+    stores, loads = {}, {}
+    for x in ast.walk(fnode):
+        if isinstance(x, ast.Name):
+            d = stores if isinstance(x.ctx, ast.Store) else loads
+            d[x.id] = d.get(x.id, 0) + 1
+    ex = _excluded(fnode)
+
+    def fold(stmts):
+        i = 0
+        while i + 1 < len(stmts):
+            a, b = stmts[i], stmts[i + 1]
+            if isinstance(a, ast.Assign) and len(a.targets) == 1 and \
+                    isinstance(a.targets[0], ast.Name) and \
+                    isinstance(b, (ast.If, ast.While)) is True and \
+                    isinstance(b, ast.If):
+                v = a.targets[0].id
+                uses = [x for x in ast.walk(b.test)
+                        if isinstance(x, ast.Name) and x.id == v]
+                if v not in ref_names and v not in ex and \
+                        stores.get(v) == 1 and loads.get(v) == 1 and \
+                        len(uses) == 1:
+                    class T(ast.NodeTransformer):
+                        def visit_Name(self, node):
+                            if node.id == v:
+                                return ast.copy_location(a.value, node)
+                            return node
+                    b.test = T().visit(b.test)
+                    del stmts[i]
+                    continue
+            i += 1
+
+    for x in ast.walk(fnode):
+        for fld in ('body', 'orelse', 'finalbody'):
+            seq = getattr(x, fld, None)
+            if isinstance(seq, list) and seq and \
+                    isinstance(seq[0], ast.stmt):
+                fold(seq)
+        if isinstance(x, ast.Try):
+            for h in x.handlers:
+                fold(h.body)
